@@ -1207,3 +1207,134 @@ def r_trunc(E):
                                             f"duration (`{norm(b)[:70]}`)", rel, b.lineno, fn.name))
     res.floor = 1     # 3 sites on the pinned tree; one shared helper would be 1
     return res
+
+
+# ---------------------------------------------------------------------------------------------- R-ONCE
+def _concat_without_set(e):
+    """the expression concatenates lists taken from several objects (sum([...], start=[]) or a two-level comprehension)
+    and the result is not passed through set()"""
+    def is_concat(x):
+        if isinstance(x, ast.Call) and isinstance(x.func, ast.Name) and x.func.id == "sum" and x.args:
+            st = next((k.value for k in x.keywords if k.arg == "start"), x.args[1] if len(x.args) > 1 else None)
+            return isinstance(st, ast.List) and not st.elts
+        if isinstance(x, ast.ListComp) and len(x.generators) >= 2:
+            return True
+        return False
+    if is_concat(e):
+        return True
+    if isinstance(e, ast.Call) and isinstance(e.func, ast.Name) and e.func.id == "list" and e.args:
+        return _concat_without_set(e.args[0])
+    if isinstance(e, ast.BinOp) and isinstance(e.op, ast.Add):
+        return _concat_without_set(e.left) or _concat_without_set(e.right)
+    return False
+
+
+def _functional_property(pm, pname, owners):
+    """for every class in `owners`, the property `pname` is a plain reverse look-up (the holders of self), and every
+    link through which such an owner can be held is a single link: an object then appears in the `pname` of one owner
+    only, so concatenating over owners cannot repeat it"""
+    if not owners:
+        return False
+    links = pm.public_links()
+    for cn in owners:
+        o, f = pm.find_method(cn, pname)
+        if f is None or not is_property(f):
+            return False
+        rets = [r.value for r in ast.walk(f) if isinstance(r, ast.Return) and r.value is not None]
+        for r in rets:
+            t = norm(r)
+            if "modeling_obj_containers" not in t or "sum(" in t or (isinstance(r, ast.ListComp) and len(r.generators) > 1):
+                return False
+        targets = set([cn] + pm.subclasses(cn))
+        for (K, l), (kind, tg) in links.items():
+            if targets & set(tg) and kind != "one":
+                return False
+    return True
+
+
+def _overlapping_concat(E, cls, e):
+    """_concat_without_set(e), unless what is concatenated is a functional reverse look-up of each owner"""
+    if not _concat_without_set(e):
+        return False
+    pm = E.pm
+    parts = []
+    for x in ast.walk(e):
+        if isinstance(x, ast.Call) and isinstance(x.func, ast.Name) and x.func.id == "sum" and x.args \
+                and isinstance(x.args[0], (ast.ListComp, ast.GeneratorExp)):
+            parts.append((x.args[0].elt, x.args[0].generators[0].iter))
+        elif isinstance(x, ast.ListComp) and len(x.generators) >= 2:
+            parts.append((x.generators[1].iter, x.generators[0].iter))
+    for p_, over in parts:
+        owners = set()
+        if isinstance(over, ast.Attribute) and isinstance(over.value, ast.Name) and over.value.id == "self":
+            if (cls, over.attr) in pm.public_links():
+                owners = set(pm.link_targets(cls, over.attr))
+            else:
+                try:
+                    out, cx = E.I.run_method(cls, over.attr, Cx(cls, over.attr))
+                    if out is not None and out.elem is not None:
+                        owners = set(out.elem.cls)
+                except Exception:
+                    owners = set()
+        if isinstance(p_, ast.Attribute) and _functional_property(pm, p_.attr, owners):
+            continue
+        return True
+    return False
+
+
+@rule("R-ONCE")
+def r_once(E):
+    pm = E.pm
+    res = RuleResult("R-ONCE", "a rule that adds up one term per element of self.<collection> iterates a collection that "
+                               "holds each object once: a navigation property that concatenates its containers' lists "
+                               "(sum(..., start=[])) is de-duplicated with set() before it is summed over")
+    from ..astutil import fully_expanded
+    seen = set()
+    for (c, x), cx in sorted(E.contexts().items()):
+        if cx is None:
+            continue
+        owner, fn = pm.find_method(c, "update_" + x)
+        fns = [(owner, fn)]
+        for q in set(cx.calls):
+            k, m = q.split(".", 1)
+            if k in pm.classes:
+                o2, f2 = pm.find_method(k, m)
+                if f2 is not None:
+                    fns.append((o2, f2))
+        for o, f in fns:
+            for L in [n for n in ast.walk(f) if isinstance(n, (ast.For, ast.comprehension))]:
+                it = L.iter
+                if not (isinstance(it, ast.Attribute) and isinstance(it.value, ast.Name) and it.value.id == "self"):
+                    continue
+                if isinstance(L, ast.For):
+                    accum = any(isinstance(s_, ast.AugAssign) and isinstance(s_.op, ast.Add) for s_ in ast.walk(L))
+                else:
+                    par = getattr(L, "_parent", None)
+                    gp = getattr(par, "_parent", None)
+                    accum = isinstance(gp, ast.Call) and isinstance(gp.func, ast.Name) and gp.func.id == "sum"
+                if not accum:
+                    continue
+                key = (c, o, f.name, it.attr)
+                if key in seen:
+                    continue
+                seen.add(key)
+                po, prop = pm.find_method(c, it.attr)
+                if prop is None or not is_property(prop):
+                    continue
+                res.instances += 1
+                rets = [r for r in ast.walk(prop) if isinstance(r, ast.Return) and r.value is not None]
+                bad = [r for r in rets if _overlapping_concat(E, c, fully_expanded(r.value, prop))]
+                if bad:
+                    fk = f"{po}.{it.attr} summed over by {o}.{f.name}"
+                    if not any(fd.key == fk for fd in res.findings):
+                        res.findings.append(Finding(
+                            "R-ONCE", fk,
+                            f"{o}.{f.name} adds one term per element of self.{it.attr}, but {po}.{it.attr} concatenates the "
+                            f"lists of several containers (`{norm(bad[0].value)[:70]}`) without de-duplicating: an object "
+                            f"reached through two containers (a job used in two steps of one journey) is counted twice",
+                            pm.path_of(po), prop.lineno, f"{po}.{it.attr}"))
+                elif len(res.samples) < 5:
+                    res.samples.append({"rule": f"{o}.{f.name}", "sums_over": f"self.{it.attr}", "defined_in": po,
+                                        "verdict": "de-duplicated or a plain link list"})
+    res.floor = 8
+    return res
